@@ -1224,3 +1224,10 @@ pub fn compact_range_scenario(
     let nums = |fs: &[Arc<FileMetadata>]| fs.iter().map(|f| f.file_number()).collect::<Vec<u64>>();
     Some((nums(cm.get_compaction_level_files()), nums(cm.get_parent_level_files())))
 }
+
+/// Number of iterators `Version::get_representative_iterators` returns for a version holding `levels`
+/// (None: the call failed, e.g. a level-0 table could not be opened).
+pub fn representative_iterator_count(options: DbOptions, levels: &[(usize, Vec<VFile>)]) -> Option<usize> {
+    let (v, _tc) = version_with(&options, levels);
+    v.get_representative_iterators(&ReadOptions::default()).ok().map(|its| its.len())
+}
